@@ -17,6 +17,7 @@ import os
 import re
 import resource
 import shutil
+import signal
 import subprocess
 
 import vlib
@@ -31,13 +32,13 @@ TRUSTED = [
     "extraction: ExtrOcamlBasic + ExtrOcamlString only; ocaml/driver_driver.ml",
     "the stub `lua` (a generated /bin/sh script first on PATH that records stdin and writes a scripted stdout/stderr/status); there is no real Lua interpreter in the sandbox",
     "harness `compile` (sylt_parser::tree + sylt_compiler::compile, the same library calls the driver makes) as the source of the compile outcome and of the length of each error's Display rendering",
-    "the OS: file creation/truncation, pipes, exit codes, RLIMIT_FSIZE (used to provoke a short write), /dev/full (a failing write)",
+    "the OS: file creation/truncation, pipes, exit codes, RLIMIT_FSIZE with SIGXFSZ ignored (limit 4096 provokes a short write, limit 0 a failing write with EFBIG)",
     "tools/lua_run.py (LuaCore, the Lua model extracted from Coq) for the --no-std trace comparison",
 ]
 ASSUMPTIONS = [
     "OS behaviour outside the model, named: a missing `lua` binary and a failing File::create are panics through expect() (status 101; modelled as such and observed); signals (SIGXFSZ, SIGPIPE) are not modelled; a short write is modelled (WroteShort) and provoked with RLIMIT_FSIZE",
     "run mode decides `execution failed` by `the child wrote to stderr`, the child's exit status is not read (modelled so; class child=status1-silent shows sylt exits 0 there)",
-    "the checks run as uid 0 when the sandbox does: a directory made read-only by permissions cannot be produced then; the unwritable classes are a missing directory (ENOENT), a path below a regular file (ENOTDIR), a path that is a directory (EISDIR), /dev/full (ENOSPC on write); a chmod 0555 directory is added when not root",
+    "the checks run as uid 0 when the sandbox does: a directory made read-only by permissions cannot be produced then; the unwritable classes are a missing directory (ENOENT), a path below a regular file (ENOTDIR), a path that is a directory (EISDIR), the empty path, and a file-size limit of 0 (create succeeds, the write fails with EFBIG); a chmod 0555 directory is added when not root",
     "when run mode fails to compile, the child is not waited for: its stdout is not ordered with sylt's own and is removed from the observation before comparing",
     "--dump-tree and the `timed` feature are outside the model; option parsing itself is gumdrop's (each case draws long/short spellings and the position of the file argument at random)",
     "error texts: the model treats each error's Display rendering as an opaque string; the tie cuts the real stdout into pieces of the lengths the harness reports for the same errors and checks each piece's header (kind, file, line)",
@@ -128,8 +129,8 @@ CHILD = {
     "status1-silent": ("", "", 1),
     "missing-lua": None,
 }
-PATHCLS = ["fresh", "existing", "missing-dir", "below-a-file", "is-a-directory", "dev-full", "fsize-limit-fresh",
-           "fsize-limit-existing", "dot-slash-dash", "empty-path"]
+PATHCLS = ["fresh", "existing", "missing-dir", "below-a-file", "is-a-directory", "fsize-zero-fresh", "fsize-zero-existing",
+           "fsize-limit-fresh", "fsize-limit-existing", "dot-slash-dash", "empty-path"]
 CREATE_FAILS = ("missing-dir", "below-a-file", "is-a-directory", "readonly-dir", "empty-path")
 DASH_SPELLINGS = ["-", "-/", "-/.", "-//", "-/./"]
 FSIZE = 4096
@@ -231,9 +232,9 @@ def prepare_path(c, cd):
     sub = c["sub"]
     if c["out"] != "file":
         return None
-    if sub in ("fresh", "fsize-limit-fresh"):
+    if sub in ("fresh", "fsize-limit-fresh", "fsize-zero-fresh"):
         return os.path.join(cd, "out.lua")
-    if sub in ("existing", "fsize-limit-existing"):
+    if sub in ("existing", "fsize-limit-existing", "fsize-zero-existing"):
         p = os.path.join(cd, "out.lua")
         open(p, "wb").write(OLD)
         return p
@@ -245,8 +246,6 @@ def prepare_path(c, cd):
     if sub == "is-a-directory":
         os.makedirs(os.path.join(cd, "adir", "inner"))
         return os.path.join(cd, "adir")
-    if sub == "dev-full":
-        return "/dev/full"
     if sub == "dot-slash-dash":
         return "./-"          # NOT stdout: Path::new("./-") != Path::new("-")
     if sub == "empty-path":
@@ -289,8 +288,12 @@ def observe(c, prog):
     argv = [SYLT] + argv_of(c, prog, outpath)
 
     def limit():
-        if c["sub"] in ("fsize-limit-fresh", "fsize-limit-existing"):
-            resource.setrlimit(resource.RLIMIT_FSIZE, (FSIZE, FSIZE))
+        # a file-size limit makes the OS cut (limit 4096: a short write) or refuse (limit 0: EFBIG) the write of
+        # the output file; SIGXFSZ is ignored (inherited across exec) so that the write returns instead of killing
+        if c["out"] == "file" and str(c["sub"]).startswith("fsize-"):
+            signal.signal(signal.SIGXFSZ, signal.SIG_IGN)
+            n = FSIZE if c["sub"].startswith("fsize-limit") else 0
+            resource.setrlimit(resource.RLIMIT_FSIZE, (n, n))
 
     p = subprocess.run(argv, cwd=cd, env=env, stdout=subprocess.PIPE, stderr=subprocess.PIPE, stdin=subprocess.DEVNULL,
                        preexec_fn=limit, timeout=120)
@@ -298,8 +301,7 @@ def observe(c, prog):
     changed = {k: after.get(k) for k in set(before) | set(after) if before.get(k, "absent") != after.get(k, "absent")}
     child_stdin = open(rec, "rb").read() if os.path.exists(rec) else None
     return dict(argv=argv, status=p.returncode, stdout=p.stdout, stderr=p.stderr, changed=changed, outpath=outpath,
-                rel_out=(outpath if not outpath or outpath.startswith("/dev/") else
-                         os.path.normpath(os.path.relpath(os.path.join(cd, outpath), cd))),
+                rel_out=(outpath if not outpath else os.path.normpath(os.path.relpath(os.path.join(cd, outpath), cd))),
                 child_stdin=child_stdin, before=before)
 
 
@@ -406,8 +408,8 @@ def world_of(c, obs, outcome, usage):
     if c["out"] == "file":
         if sub in CREATE_FAILS:
             create = "fail:-"
-        elif sub == "dev-full":
-            write = "fail:" + vlib.hexs("No space left on device (os error 28)")
+        elif sub.startswith("fsize-zero"):
+            write = "fail:" + vlib.hexs("File too large (os error 27)")
         elif sub.startswith("fsize-limit"):
             n = len(outcome[1]) if outcome[0] == "ok" else 0
             write = "short:%d" % FSIZE if n > FSIZE else "all"
@@ -453,8 +455,6 @@ def compare(c, model_line, o):
     elif ms != o["stderr"]:
         diffs.append("stderr model=%r real=%r" % (ms, o["stderr"][:300]))
     mf = m["file"]
-    if c["sub"] == "dev-full":
-        mf = "U" if mf in ("U", "H-") else mf      # a device: content not observable
     if mf != o["file"]:
         diffs.append("file effect model=%s real=%s" % (mf[:80], o["file"][:80]))
     mc = m["child"]
@@ -485,7 +485,7 @@ def property_violations(c, prog, obs, outcome, dash_bytes, preamble):
     if c["out"] == "run":
         ch = CHILD.get(c["sub"])
         run_ok = ch is not None and ch[1] == ""
-    os_ok = not (c["out"] == "file" and c["sub"] in CREATE_FAILS + ("dev-full",)) \
+    os_ok = not (c["out"] == "file" and c["sub"] in CREATE_FAILS + ("fsize-zero-fresh", "fsize-zero-existing")) \
         and not (c["out"] == "run" and c["sub"] == "missing-lua")
     should_succeed = compile_ok and run_ok and cls != "no-file-argument"
     # 1. exit status  (under the file-size limit the verdict is left to the all-or-nothing check below)
@@ -518,7 +518,12 @@ def property_violations(c, prog, obs, outcome, dash_bytes, preamble):
             elif not compile_ok:
                 v.append(("file-touched-on-error", "compilation failed but %s was written (%d bytes)" % (path, len(content or b""))))
             elif content != dash_bytes:
-                tag = "short-write" if c["sub"].startswith("fsize-limit") else "file-incomplete"
+                if not c["sub"].startswith("fsize-"):
+                    tag = "file-incomplete"
+                elif obs["status"] == 0:
+                    tag = "incomplete-file-status-0"          # a short write taken for success
+                else:
+                    tag = "incomplete-file-on-write-error"    # File::create truncated FILE, then the write failed
                 v.append((tag, "FILE holds %d bytes, the complete program has %d; status %d" % (
                     len(content or b""), len(dash_bytes or b""), obs["status"])))
         if compile_ok and os_ok and obs["status"] == 0 and obs["rel_out"] not in obs["changed"]:
@@ -695,14 +700,18 @@ def tie(ctx):
     return {"name": "driver", "ok": nm == 0, "mismatches": mism, "evaluations": len(cases), "distinct_nontrivial": len(nontrivial),
             "rule": "full matrix: output mode {run, -o -, -o FILE} x --require {absent, one of 6 spellings incl. .lua suffixes} x --no-std x "
                     "-v, crossed with 10 program classes (accepted single/multi-file/std-using, runtime-failing, rejected with 1 / several "
-                    "errors / syntax errors in two files / conflict marker, missing file, no file argument), with 8 output-path classes "
+                    "errors / syntax errors in two files / conflict marker, missing file, no file argument), with 11 output-path classes "
                     "for -o FILE and 6 child classes for run mode; --help cases; option spelling (long/short) and file position drawn "
                     "at random; non-trivial = the run wrote to stdout, to a file or to the child; distinct by (class, flags)",
             "samples": samples, "distribution": dist}
 
 
 def known_classifiers():
-    return set(k.get("classifier") for k in vlib.known_findings("C20") if k.get("status") == "open")
+    out = set()
+    for k in vlib.known_findings("C20"):
+        if k.get("status") == "open":
+            out.update(x for x in (k.get("classifiers") or [k.get("classifier")]) if x)
+    return out
 
 
 def oracle(ctx):
@@ -788,7 +797,8 @@ def replay_known(ctx, kf):
     if "case" not in w:
         return False
     v, _ = run_single(ctx, w["case"])
-    return any("c20:" + tag == kf.get("classifier") for tag, _ in v)
+    cls = kf.get("classifiers") or [kf.get("classifier")]
+    return any("c20:" + tag in cls for tag, _ in v)
 
 
 def replay(ctx, rep):
